@@ -1,3 +1,3 @@
 From Coq Require Extraction ExtrOcamlBasic.
 From V Require Import Model.Expr.
-Extraction "exprmodel.ml" pr parse norm strip plev tlev.
+Extraction "exprmodel.ml" pr parse norm strip plev tlev validb posokb nolamb noparb noaddb.
